@@ -16,13 +16,16 @@ PORTS = [443, 44330, 8443, 4433, 9443, 1234, 50000, 1, 65535, 8080]
 def build(tier, seed):
     thorough = tier == "thorough"
     cases = [{"id": f"cfg-{i}", "i": i} for i in range(30000 if thorough else 300)]
+    cases += [{"id": f"collide-{i}", "i": i, "collide": True} for i in range(1500 if thorough else 24)]
 
     def evalfn(case):
-        return eval_case(case, random.Random(engine.subseed("C10", seed, case["id"])))
+        rng = random.Random(engine.subseed("C10", seed, case["id"]))
+        return eval_collide(case, rng) if case.get("collide") else eval_case(case, rng)
 
     return dict(cases=cases, evalfn=evalfn, level="exploration", min_nontrivial=50,
                 rule="scenes of 2-5 TLS/QUIC connections to server ports drawn from {443, 44330, 8443, 4433, 9443, 1234, 50000, 1, 65535, 8080} x -p lists of 0..4 ports x -m "
-                     "absent / bare / 1..4 a:b pairs with and without trailing commas (mapped ports inside and outside the connection set). Class = (-p size, -m form, "
+                     "absent / bare / 1..4 a:b pairs with and without trailing commas (mapped ports inside and outside the connection set); plus 'collide' scenes: one client "
+                     "address and port connected to two watched ports of one server, both mapped to the same exported port. Class = (-p size, -m form, "
                      "per-connection (protocol, selected?, mapped?)); non-trivial = at least one connection was exported and every connection's presence, ports and data were checked",
                 assumptions=["a connection has exactly one side on a selected port (the statement is ambiguous otherwise; not generated)"])
 
@@ -104,6 +107,65 @@ def eval_case(case, rng):
     out["cls"] = [mform, len(plist), sorted(set(desc))]
     out["mon"] = {"connections_checked": len(flows)}
     out["nontrivial"] = exported > 0
+    if msgs:
+        return dict(out, v="violated", msg=f"args {extra}: " + "; ".join(msgs[:3]), files=dict(files, argv="\n".join(argv), **{"out.pcapng": res.out}))
+    return dict(out, v="held")
+
+
+def eval_collide(case, rng):
+    """One client (address, port) talks to two different watched ports of one server, one connection after the other, and -m sends both to the same exported port.
+    The documented rule still names that port for both (the two exported conversations then share a 4-tuple, so only ports and the per-direction byte sequence are judged)."""
+    import dataclasses
+    a, b = rng.sample([443, 44330, 8443, 4433, 9443, 1234, 50000], 2)
+    plist = [p for p in (a, b) if p not in (443, 44330)]
+    extra = (["-p"] + [str(p) for p in plist]) if plist else []
+    form = rng.choice(["bare", "pairs", "pairs-commas"])
+    if form == "bare" and 443 in (a, b) and rng.random() < 0.5:
+        form = "pairs"
+    if form == "bare":
+        mapargs = []
+        extra += ["-m"]
+    else:
+        t = rng.choice([8080, 9000, 80, a, tcpcap.map_target(rng)])
+        mapargs = [f"{a}:{t}", f"{b}:{t}"]
+        extra += ["-m"] + ([mapargs[0] + ",", mapargs[1] + ","] if form == "pairs-commas" else mapargs)
+    ep1 = tcpcap.random_ep(rng, sport=a, odd=0.0)
+    while ep1.cport in (a, b, 443, 44330) or ep1.cport in PORTS:
+        ep1 = tcpcap.random_ep(rng, sport=a, odd=0.0)
+    ep2 = dataclasses.replace(ep1, sport=b, cisn=rng.randrange(1, 1 << 31), sisn=rng.randrange(1, 1 << 31))
+    flows = [gen.random_tls_flow(rng, 0, ep=ep1, nmax=4, min_records=1), gen.random_tls_flow(rng, 1, ep=ep2, nmax=4, min_records=1)]
+    if rng.random() < 0.5:
+        flows.reverse()
+        for k, fl in enumerate(flows):
+            for it in fl.items:
+                it.conn = k
+    items = scene.stamp(scene.merge(flows, rng, "concat"), rng)
+    res, files, argv = e2e.run_capture(scene.capture(items), scene.keylog_text(flows, rng), extra)
+    want = [e2e.exported_port(p, mapargs) for p in (a, b)]
+    out = {"tags": ["m:collide-" + form], "cls": ["collide", form, len(plist), want[0] == want[1]],
+           "sample": {"case": case["id"], "connections": [f.label + " " + f.ep.describe() for f in flows], "args": extra}}
+    fail = e2e.run_failed(res)
+    if fail:
+        return dict(out, v="inconclusive" if fail.startswith("INCONCLUSIVE") else "violated", msg=f"args {extra}: " + fail, files=files)
+    an = outparse.Analysis(res.out)       # (only its lenient packet list is used: two conversations on one 4-tuple are no TCP stream any more)
+    msgs = []
+    got = {"c": b"", "s": b""}
+    for p in an.pkts:
+        if not p.payload:
+            continue
+        if (p.src, p.sport, p.dst, p.dport) == (ep1.cip, ep1.cport, ep1.sip, want[0]):
+            got["c"] += p.payload
+        elif (p.src, p.sport, p.dst, p.dport) == (ep1.sip, want[0], ep1.cip, ep1.cport):
+            got["s"] += p.payload
+        else:
+            msgs.append(f"exported packet {p.sport}->{p.dport}: the documented rule gives server port {want[0]} for both connections (ports {a} and {b}) and leaves the client port {ep1.cport} alone")
+            break
+    for d in "cs":
+        truth = b"".join(f.conn.truth[d] for f in flows)
+        if not msgs and got[d] != truth:
+            msgs.append(f"{'client' if d == 'c' else 'server'} direction: {len(got[d])} bytes exported under port {want[0]}, the two connections sent {len(truth)}")
+    out["mon"] = {"connections_checked": 2}
+    out["nontrivial"] = bool(got["c"] or got["s"])
     if msgs:
         return dict(out, v="violated", msg=f"args {extra}: " + "; ".join(msgs[:3]), files=dict(files, argv="\n".join(argv), **{"out.pcapng": res.out}))
     return dict(out, v="held")
